@@ -18,3 +18,11 @@ Theorem C18_update_overwrites_analysed : forall A (es : list (edit A)) pos l,
   wf pos (length l) es -> update l es = firstn pos l ++ splice pos (skipn pos l) es.
 Proof. intros A. exact (@update_sorted_disjoint A). Qed.
 Print Assumptions C18_update_overwrites_analysed.
+
+Require Import UniqueProofs.
+(* an update whose inserted tokens are distinct objects, different from every token it keeps, never makes an object
+   stand at two positions of the list; the trace check reports the rule application after which one does *)
+Theorem C18_update_keeps_objects_distinct : forall A B (f : A -> B) (es : list (edit A)) l, wf 0 (length l) es ->
+  NoDup (map f (kept_abs l 0 es ++ inserted es)) -> NoDup (map f (update l es)).
+Proof. intros A B. exact (@update_keeps_objects_distinct A B). Qed.
+Print Assumptions C18_update_keeps_objects_distinct.
